@@ -336,6 +336,8 @@ class Scenario:
     def clone_T(self, E, v):
         pl = self.payloads[v.id]
         self.trace.append(['tclone', v.id])
+        if getattr(self, 'clone_panics', False):
+            raise Panic('T::clone panicked (script)')
         npid = self.next_pid
         self.next_pid += 1
         np = Payload(npid, None)
@@ -389,6 +391,8 @@ class Scenario:
                 out.append('Node(%d)' % d)
             elif kind == 'str':
                 out.append(str(d))
+            elif kind == 'spec-dropped':
+                out.append('[spec-dropped]')
             elif kind == 'ptr':
                 oi = self.objs.get(x['obj']) if x.get('obj') is not None else None
                 ok = isinstance(d, Ptr) and oi is not None and d.obj == oi.box and len(d.path) >= 1 and d.path[0] == 3 and all(q == 0 for q in d.path[1:])
@@ -1101,6 +1105,7 @@ class Scenario:
                 self.run_op({'op': 'drop', 'h': op['h']})
         elif k == 'clone_mode':
             self.clone_unlinked = (op['mode'] == 'unlinked')
+            self.clone_panics = (op['mode'] == 'panic')
         elif k == 'drop_if':
             if op['h'] in self.handles:
                 self.run_op({'op': 'drop', 'h': op['h']})
